@@ -213,7 +213,8 @@ def judge(chk, run, it, cxx, std, impl, stats):
                         'needs_end': (ev.needs_end if ev.needs_end < c10gen.INF else 'beyond-image'),
                         'outcome': CH[got], 'expected': CH[exp], 'what': bad, 'cause': cause,
                         'view_begin': ev.view_begin, 'mutated': it.mut['field'] if it.mut else 'none',
-                        'model': CH.get(mrun[j], mrun[j]), 'cxx': cxx, 'std': std}
+                        'model': CH.get(mrun[j], mrun[j]), 'cxx': cxx, 'std': std,
+                        'max_hdr_bytes': c10gen.max_hdr_bytes(it.m)}
                 chk.report_failure({
                     'kind': 'impl≠spec', 'config': {'cxx': cxx, 'std': std, 'defines': ['SBEPP_ENABLE_ASSERTS_WITH_HANDLER']},
                     'schema_xml': open(it.case.xml).read(), 'schema_sexp': it.case.sexp, 'message': it.m['name'],
@@ -296,7 +297,7 @@ def judge_cursor(chk, run, it, cxx, std, impl, stats):
                 case = {'accessor': kname, 'n': n, 'needs_end': (needs_end if needs_end < c10gen.INF else 'beyond-image'),
                         'outcome': CH[got], 'expected': CH[exp], 'what': bad, 'cause': cause,
                         'mutated': it.mut['field'] if it.mut else 'none', 'model': CH.get(mrun[j], mrun[j]),
-                        'cxx': cxx, 'std': std}
+                        'cxx': cxx, 'std': std, 'max_hdr_bytes': c10gen.max_hdr_bytes(it.m)}
                 chk.report_failure({
                     'kind': 'impl≠spec', 'config': {'cxx': cxx, 'std': std, 'defines': ['SBEPP_ENABLE_ASSERTS_WITH_HANDLER']},
                     'schema_xml': open(it.case.xml).read(), 'schema_sexp': it.case.sexp, 'message': it.m['name'],
